@@ -606,6 +606,12 @@ def wallet_history(job):
                         rt.send()
                     except WalletError:
                         rt = None           # (the co-wallet spent an output this wallet does not know: refused)
+                    except AttributeError as e:
+                        # (same situation, met as a crash inside transaction_create instead of a WalletError: nothing was
+                        # written, the books are unchanged - an observation outside C08)
+                        rt = None
+                        notes.append('transaction_import of a transaction spending an output this wallet has no key for raised %r '
+                                     'instead of WalletError' % e)
                     if rt is not None and rt.pushed:
                         stored.append(rt.txid)
                         x = txresult(rt, [(EXT[0], 0)])
